@@ -85,6 +85,8 @@ def main():
     if problems and not any(v['found_input'] for v in ctx.violations):
         ctx.violation('lean:' + pid, 'proof obligation no longer checks: ' + ' | '.join(problems),
                       dict(kind='proof-obligation', problems=problems), found_input=False)
+    elif problems:
+        print('note: the proof obligations no longer check either (explained by the failing input below): %s' % ' | '.join(problems)[:300].replace('\n', ' '))
     obligations = max(len(thms), 1)
     return core.finish(ctx, (obligations, discharged if thms else 0),
                        'cd lean && lake build %s && lean Audit/<module>.lean  (axioms of every public theorem of %s)' % (' '.join(targets), ', '.join(prop_mods)))
